@@ -199,6 +199,11 @@ def apply_op(sc, a):
             sc.erase_lanelet_network()
         elif op == "gen":
             gid = int(sc.generate_object_id())
+        elif op == "remove_absent":
+            objs = [build(n) for n in toks]           # obstacles that are not in the scenario (ids may be in use elsewhere)
+            if any(sc.obstacle_by_id(tokens()[n]["id"]) is not None for n in toks):
+                return "skip", gid                    # an obstacle with that id is contained: not the absent case
+            sc.remove_obstacle(objs if a.get("ref") else objs[0])
         else:
             objs = [_find(sc, n) for n in toks]
             if any(o is None for o in objs):
@@ -233,6 +238,8 @@ def _sig(a, sc_nonempty):
         s += ":" + "+".join(kinds)
         if a["op"] == "add" and kinds == ["network"] and sc_nonempty:
             s += "@nonempty"
+    elif a["op"] == "remove_absent":
+        s += "[list]" if a["ref"] else "[single]"
     elif a["op"].startswith("remove"):
         is_list = a.get("list", a["ref"] if a["op"] != "remove_lanelet" else (1 if len(a["toks"]) > 1 else 0))
         s += "[list]" if is_list else "[single]"
@@ -281,7 +288,7 @@ def execute(case):
 def _pick(rng, case, contained, tok):
     contained = [c for c in contained if c in tok]
     by = lambda ks: [c for c in contained if tok[c]["k"] in ks]
-    choices = ["add"] * 5 + ["gen", "add_list", "erase", "replace", "addnet"]
+    choices = ["add"] * 5 + ["gen", "add_list", "erase", "replace", "addnet", "remove_absent"]
     for op, ks in (("remove_obstacle", ("static", "dynamic", "phantom", "env")), ("remove_sign", ("sign",)),
                    ("remove_light", ("light",)), ("remove_inter", ("inter",)), ("remove_lanelet", ("lanelet",))):
         if by(ks):
@@ -297,6 +304,11 @@ def _pick(rng, case, contained, tok):
         return {"op": "add_list", "toks": rng.sample(case["objs"], 2), "ref": 0}
     if op in ("gen", "erase"):
         return {"op": op, "toks": [], "ref": 0}
+    if op == "remove_absent":
+        pool = [n for n in case["objs"] if tok[n]["k"] in ("static", "dynamic", "phantom", "env") and n not in contained]
+        if not pool:
+            return {"op": "gen", "toks": [], "ref": 0}
+        return {"op": op, "toks": [rng.choice(pool)], "ref": rng.randint(0, 1)}
     ks = {"remove_obstacle": ("static", "dynamic", "phantom", "env"), "remove_sign": ("sign",),
           "remove_light": ("light",), "remove_inter": ("inter",), "remove_lanelet": ("lanelet",)}[op]
     pool = by(ks)
